@@ -125,7 +125,9 @@ class ApiSession:
         if self.spec.get("open_fails"):
             import serial
             raise serial.SerialException("could not open port")
-        self.dev = make_device(self.spec.get("device"), None)
+        self.opens = getattr(self, "opens", 0) + 1
+        first = self.spec.get("first_device")
+        self.dev = make_device(first if (first and self.opens == 1) else self.spec.get("device"), None)
         self.port = sched.VSerial(self.dev)
         wf = self.spec.get("write_fault_after")
         if wf is not None:
@@ -163,6 +165,17 @@ class ApiSession:
         kind = spec["kind"]
         if kind == "api_init":
             a = ynca.YncaApi("virtual://port", (lambda: (api.emit("disc_cb"), api.emit("disc_cb_ret"))) if spec.get("disconnect_cb", True) else None, spec.get("log_size", 0))
+            if spec.get("first_device"):
+                # a first attempt on the same object fails (the receiver stops answering); what follows is the attempt that is judged
+                try:
+                    a.initialize()
+                    api.emit("attempt1", exc=None)
+                except sched.Hang:
+                    raise
+                except BaseException as e:  # noqa: BLE001
+                    api.emit("attempt1", exc=type(e).__name__)
+                api.sleep(1.0)
+                api.emit("attempt2")
             closer = spec.get("closer")
             if closer:
                 # another thread calls YncaApi.close() while initialize() is (probably) still running
